@@ -3,6 +3,7 @@ package main
 import (
 	"fmt"
 	"sort"
+	"strings"
 
 	"verifharness/kit"
 )
@@ -15,6 +16,7 @@ type profile struct {
 	Relabel     bool // a NodeClaim/Node may change its nodepool label
 	SameNodeRe  bool // pods may be re-created under the same name on the same node with different attributes
 	Untrackable bool // a node name the cache tracks may come back in an untrackable form
+	VolHeavy    bool // every pod mounts claims of one CSI driver and sits on one node (rebuilds of the volume union)
 }
 
 type gen struct {
@@ -27,8 +29,10 @@ type gen struct {
 	bound                  map[string]bool // pod names that were ever written bound to a node
 	nNodes, nClaims, nPods int
 	count                  func(string)
-	histOK                 bool   // the premise hist_ok of the theorem, mirrored on the real cache
-	markFail               string // a Mark/Unmark call that did not reach a tracked id
+	histOK                 bool            // the premise hist_ok of the theorem, mirrored on the real cache
+	markFail               string          // a Mark/Unmark call that did not reach a tracked id
+	nominated              map[string]bool // provider ids nominated while their entry has existed ever since
+	claimPool              map[string]string
 	stale                  bool   // some pod delivery had the shape stale_rewrite
 	histWhy                string // first reason it failed
 	roundStart             int    // index in ops where the closing round starts (-1: none)
@@ -172,6 +176,21 @@ func (g *gen) emit(o Op) {
 	}
 	g.ops = append(g.ops, o)
 	g.w.apply(o)
+	if o.Kind == "Nominate" || strings.HasPrefix(o.Kind, "Deliver") {
+		// nomination is carried over by every update and lost only when the entry goes away
+		d := g.w.cluster.VerifC11Dump()
+		if _, ok := d.Nodes[o.Name]; ok && o.Kind == "Nominate" {
+			g.nominated[o.Name] = true
+		}
+		for id := range g.nominated {
+			sn, ok := d.Nodes[id]
+			if !ok {
+				delete(g.nominated, id)
+			} else if !sn.Nominated && g.markFail == "" {
+				g.markFail = fmt.Sprintf("after %s %s the nomination of provider id %s is lost although its entry was kept", o.Kind, o.Name, id)
+			}
+		}
+	}
 	if o.Kind == "Mark" || o.Kind == "Unmark" {
 		// deletion marks are in-memory state: the recomputation cannot see them, so they get their own oracle
 		// (marks_reach_every_tracked_id): every tracked id of the list carries the new mark, wherever untracked ids sit
@@ -260,6 +279,7 @@ func (g *gen) stepNode() {
 			v.Reg = true
 			v.Init = g.r.Chance(1, 2)
 		}
+		g.decorateNode(v)
 		if g.dirty["N/"+name] && !g.prof.Untrackable && pool != "" {
 			// re-created before the cache saw the deletion: keep it trackable
 			v.PID, v.IType = truePID, true
@@ -277,12 +297,13 @@ func (g *gen) stepNode() {
 	case c < 8 && !v.Reg:
 		v.Reg = true
 	case c < 11 && !v.Init:
-		v.Reg, v.Init = true, true
+		v.Reg, v.Init, v.InitFalse, v.RegFalse = true, true, false, false
 	case c < 12 && !v.IType:
 		v.IType = true
 	case c < 13:
 		k := g.r.Intn(4)
 		v.CPU, v.Mem = caps[k][0], caps[k][1]
+		g.decorateNode(&v)
 	case c < 15:
 		v.Deleting = true
 	case c < 18:
@@ -301,6 +322,38 @@ func (g *gen) stepNode() {
 		return
 	}
 	g.emit(Op{Kind: "SetNode", Node: &v})
+}
+
+var taintPool = []string{"node.kubernetes.io/not-ready:NoSchedule", "t1:NoSchedule", "t2:NoExecute", "karpenter.sh/disrupted:NoSchedule"}
+
+// decorateNode varies the fields the StateNode accessors read beyond identity: allocatable, hostname label, taints,
+// the do-not-disrupt annotation, and the "false" spellings of the initialized / registered labels.
+func (g *gen) decorateNode(v *NodeV) {
+	v.ACPU, v.AMem = 0, 0
+	if g.r.Chance(1, 2) {
+		v.ACPU, v.AMem = v.CPU-100, v.Mem
+		if v.Mem > 256 {
+			v.AMem = v.Mem - 256
+		}
+	}
+	v.Hostname = ""
+	if g.r.Chance(1, 3) {
+		v.Hostname = "host-" + v.Name
+	}
+	v.Taints = nil
+	for k := g.r.Intn(3); k > 0; k-- {
+		v.Taints = append(v.Taints, kit.Pick(g.r, taintPool))
+	}
+	v.DoNotDisrupt = g.r.Chance(1, 8)
+	v.InitFalse = !v.Init && g.r.Chance(1, 5)
+	v.RegFalse = !v.Reg && g.r.Chance(1, 5)
+	g.count("field:node:" + map[bool]string{true: "allocatable-differs", false: "allocatable=capacity"}[v.ACPU != 0])
+	if v.InitFalse {
+		g.count("field:node:initialized-label=false")
+	}
+	if len(v.Taints) > 0 {
+		g.count("field:node:tainted")
+	}
 }
 
 // nodeMayGo: in a well-formed history a Node disappears only after its pods are gone (drained and their
@@ -338,13 +391,24 @@ func (g *gen) stepClaim() {
 	j := g.r.Intn(g.nClaims)
 	name := fmt.Sprintf("c%d", j)
 	cur, ok := g.w.claims[name]
-	pool := g.poolOf(j)
-	if pool == "" {
-		pool = "pa"
+	pool, known := g.claimPool[name]
+	if !known {
+		pool = g.poolOf(j)
+		if pool == "" {
+			pool = "pa"
+		}
+		if g.r.Chance(1, 8) {
+			pool = "" // a NodeClaim without the nodepool label: NodePoolState must not track it
+			g.count("field:claim:no-nodepool-label")
+		}
+		g.claimPool[name] = pool // the label of a name does not change
 	}
 	truePID := fmt.Sprintf("x%d", j)
 	if !ok {
 		v := &ClaimV{Name: name, Pool: pool, CPU: caps[(j+1)%4][0], Mem: caps[(j+1)%4][1]}
+		if g.r.Chance(1, 3) {
+			v.Taints, v.Startup = []string{kit.Pick(g.r, taintPool)}, []string{"t1:NoSchedule"}
+		}
 		if !g.r.Chance(1, 2) || (g.dirty["C/"+name] && !g.prof.PidReuse) {
 			v.PID = truePID // a name whose deletion the cache has not seen yet comes back launched
 		}
@@ -363,6 +427,10 @@ func (g *gen) stepClaim() {
 		v.CPU, v.Mem = caps[k][0], caps[k][1]
 	case c < 8:
 		v.Deleting = true
+		v.Term = g.r.Chance(1, 2) // termination of the instance has started
+		if v.Term {
+			g.count("field:claim:InstanceTerminating")
+		}
 	case c < 10:
 		g.emit(Op{Kind: "DelClaim", Name: name})
 		return
@@ -379,7 +447,8 @@ func (g *gen) stepClaim() {
 }
 
 var portPool = []string{"0.0.0.0:80:TCP", "10.0.0.1:80:TCP", "0.0.0.0:80:UDP", ":443:TCP", "0.0.0.0:0:TCP", "::1:53:UDP"}
-var volPool = []string{"pvc-a", "pvc-b", "pvc-c", "pvc-d", "pvc-e", "pvc-missing", "empty"}
+var volPool = []string{"pvc-a", "pvc-b", "pvc-c", "pvc-d", "pvc-e", "pvc-missing", "empty", "pvc-f", "pvc-g", "pvc-h", "pvc-i", "pvc-j", "pvc-k"}
+var drv1Pool = []string{"pvc-a", "pvc-b", "pvc-f", "pvc-g"}
 var reqPool = [][2]int64{{100, 128}, {250, 0}, {0, 512}, {1000, 1024}, {0, 0}}
 
 func (g *gen) randomPod(name, node string) *PodV {
@@ -413,6 +482,26 @@ func (g *gen) randomPod(name, node string) *PodV {
 	for k := g.r.Intn(3); k > 0; k-- {
 		v.Vols = append(v.Vols, kit.Pick(g.r, volPool))
 	}
+	if g.prof.VolHeavy {
+		v.Vols = []string{kit.Pick(g.r, drv1Pool)}
+		if g.r.Chance(1, 3) {
+			v.Vols = append(v.Vols, kit.Pick(g.r, drv1Pool))
+		}
+	}
+	v.Failed = g.r.Chance(1, 2)
+	switch g.r.Intn(6) {
+	case 0:
+		v.Owner = "ReplicaSet"
+	case 1:
+		v.Owner = "Node"
+	}
+	v.BadCost = v.DelCost == nil && g.r.Chance(1, 10)
+	v.Init, v.Overhead, v.Ephemeral = g.r.Chance(1, 6), g.r.Chance(1, 8), g.r.Chance(1, 8)
+	for k, on := range map[string]bool{"init-container": v.Init, "overhead": v.Overhead, "ephemeral-volume": v.Ephemeral, "unparsable-deletion-cost": v.BadCost, "owner-not-daemonset": v.Owner != ""} {
+		if on {
+			g.count("field:pod:" + k)
+		}
+	}
 	return v
 }
 
@@ -426,13 +515,18 @@ func trackable(n *NodeV) bool {
 	if n.PID == "" && managed {
 		return false
 	}
-	if managed && !n.IType && !n.Init {
+	if managed && !n.IType && !(n.Init || n.InitFalse) {
 		return false
 	}
 	return true
 }
 
 func (g *gen) pickNodeFor(pod string) string {
+	if g.prof.VolHeavy {
+		if n := g.existingNodeNames(); len(n) > 0 && trackable(g.w.nodes[n[0]]) {
+			return n[0]
+		}
+	}
 	var names []string
 	for _, n := range g.existingNodeNames() {
 		if g.prof.Untracked || !g.bound[pod] || trackable(g.w.nodes[n]) {
@@ -470,6 +564,7 @@ func (g *gen) stepPod() {
 	case c < 2:
 		v := *cur
 		v.Terminal = true
+		g.count("field:pod:phase-" + map[bool]string{true: "Failed", false: "Succeeded"}[v.Failed])
 		g.emit(Op{Kind: "SetPod", Pod: &v})
 	case c < 4:
 		g.emit(Op{Kind: "DelPod", Name: name})
@@ -532,6 +627,28 @@ func (g *gen) stepMark() {
 	}
 }
 
+func (g *gen) stepNominate() {
+	d := g.w.cluster.VerifC11Dump()
+	ids := append(kit.SortedKeys(d.Nodes), "nope")
+	g.emit(Op{Kind: "Nominate", Name: kit.Pick(g.r, ids)})
+}
+
+// stepForeign: a NodeClaim whose nodeClassRef the cloud provider does not support; it may even carry the provider
+// id of a tracked node. The NodeClaim informer must ignore it (the model never hears of it).
+func (g *gen) stepForeign() {
+	switch g.r.Intn(3) {
+	case 0:
+		pid := "xf"
+		if g.r.Bool() {
+			pid = "x0"
+		}
+		g.emit(Op{Kind: "SetForeignClaim", Claim: &ClaimV{Name: "cf", PID: pid, Pool: "pa", CPU: 1000, Mem: 1024, Unmanaged: true}})
+	case 1:
+		g.emit(Op{Kind: "DelForeignClaim", Name: "cf"})
+	}
+	g.emit(Op{Kind: "DeliverForeignClaim", Name: "cf"})
+}
+
 func (g *gen) history(n int) {
 	if len(g.ops) == 0 && g.r.Chance(3, 4) {
 		// warm start: one or two tracked nodes, so that pods have somewhere to be bound
@@ -559,8 +676,12 @@ func (g *gen) history(n int) {
 			g.stepNode()
 		case c < 68:
 			g.stepClaim()
-		case c < 94:
+		case c < 92:
 			g.stepPod()
+		case c < 94:
+			g.stepNominate()
+		case c < 95:
+			g.stepForeign()
 		default:
 			g.stepMark()
 		}
